@@ -322,8 +322,8 @@ def blockRowStep (ncols : Nat) (dt : Nat) (a : Acc) (brow : List Block) : Except
       | [d] => return fastRows d a
       | _ => return genericRows data nr a
 
-/-- `assemble_block_csr` up to the final call (code model): the merged triple, or `none` with the shape when the
-`if not values` shortcut to `empty(...)` is taken -/
+/-- `assemble_block_csr` up to the final call (code model): the merged triple and the flag "something was appended
+to the Python list `values`" (when it is false the `if not values` shortcut to `empty(...)` is taken) -/
 def blockMergeCode (blocks : List (List Block)) : Except BErr (CSR × Bool) :=
   match blocks with
   | [] => .error .noBlocks
@@ -349,7 +349,8 @@ def mergeBlockRow : List (List Row × Nat) → Nat → List Row
   | (L, w) :: t, nr =>
     List.zipWith (fun (r : Row) (r' : Row) => r ++ r'.map fun p => (p.1 + (w : Int), p.2)) L (mergeBlockRow t nr)
 
-/-- `blockMerge`: the CSR triple of the block matrix, defined on the row view of the blocks -/
+/-- `blockMerge`: the CSR triple of the block matrix, defined on the row view of the blocks (specification-level
+merge; `Props.block_code` proves that the code model `blockMergeCode` produces exactly this triple) -/
 def blockMerge (blocks : List (List Block)) : CSR :=
   let ncols := ((blocks.head?.getD []).map (·.ncols)).sum
   ofRows (blocks.map fun brow =>
